@@ -79,6 +79,13 @@ func (w *World) drawOutcome(call *Call, shared []*common.ErrorResponse) {
 		call.Out = Outcome{Kind: "errresp", ErrResp: e, ErrSnap: deepCopy(reflect.ValueOf(e)), Shared: call.Out.Shared}
 	case 2:
 		call.Out = Outcome{Kind: "error", Err: errors.New(fmt.Sprintf("plain-failure-%d", call.ID))}
+		if w.c.Choose(3, "wrapped-errresp") == 2 {
+			// "any other error" includes one that merely wraps a Rest.li error response further down its chain
+			st := int32(404)
+			msg := fmt.Sprintf("inner-%d", call.ID)
+			call.Out.Err = fmt.Errorf("plain-failure-%d wrapping: %w", call.ID, &common.ErrorResponse{Status: &st, Message: &msg})
+			w.c.Probe("plain-error-wrapping-an-error-response")
+		}
 	case 3:
 		call.Out = Outcome{Kind: "panic", PanicVal: fmt.Sprintf("resource-panic-%d", call.ID)}
 	case 4:
@@ -184,6 +191,11 @@ func checkOutcome(c *harness.Ctx, w *World, call *Call, where string) {
 	case "error", "panic", "nilentity":
 		if call.Err == nil {
 			c.Fail("C08", "failure-as-success", "failure-as-success:"+sigBase, "%s: the resource %s but the client call succeeded: %s (status %d)", where, describeOutcome(call), renderArgs(call.Rets), e.Status)
+			return
+		}
+		if !hdrSet {
+			// "becomes an error response": the Rest.li error envelope, announced by its header
+			c.Fail("C08", "error-header-missing", "error-header-missing:"+sigBase, "%s: the resource %s; the answer (status %d) is not a Rest.li error response: the error header is missing; body %q", where, describeOutcome(call), e.Status, clip(e.RespBody, 200))
 			return
 		}
 		if e.Status < 400 {
